@@ -58,8 +58,14 @@ def gen_case(rng, tier, i):
         fl.append([t, rng.randint(0, nact), rng.choice(["exc", "exc", "key", "base", "exit"])])
     strategy = ["log", "warn", "pause"][(i // VARIANTS + v) % 3] if v < 12 else rng.choice(["log", "warn", "pause"])
     driver = rng.choice(["start", "start", "bounded", "step", "mixed"])
+    # the strategy may be changed by the model while it runs: the one in force when a handler fails decides
+    switches = []
+    if v >= 8 and order:
+        for t in rng.sample(order, min(len(order), rng.randint(1, 2))):
+            switches.append([t, rng.choice(["log", "warn", "pause"])])
     cuts = sorted(rng.sample(range(0, 60), 3))
-    return {"prog": prog, "faults": fl, "strategy": strategy, "driver": driver, "cuts": cuts, "nsteps": rng.randint(1, 6)}
+    return {"prog": prog, "faults": fl, "strategy": strategy, "driver": driver, "cuts": cuts, "nsteps": rng.randint(1, 6),
+            "switches": switches}
 
 
 def shard_setup(tier, ctx):
@@ -76,9 +82,11 @@ def shard_teardown(tier, ctx):
     sys.stderr = sys.__stderr__
 
 
-def _with_faults(prog, faults):
+def _with_faults(prog, faults, switches=()):
     import copy
     p = copy.deepcopy(prog)
+    for tag, strat in switches:
+        p["handlers"].setdefault(tag, []).insert(0, ["strategy", strat])
     for tag, pos, *rest in faults:
         kind = rest[0] if rest else "exc"
         acts = p["handlers"].setdefault(tag, [])
@@ -89,7 +97,7 @@ def _with_faults(prog, faults):
 def run_case(case, ctx):
     from vlib.simharness import Harness, compare_traces, check_clock_monotone
     from vlib.refdevs import Ref, WARMUP
-    prog = _with_faults(case["prog"], case["faults"])
+    prog = _with_faults(case["prog"], case["faults"], case.get("switches", ()))
     prog["strategy"] = case["strategy"]
     where = {"clock": prog["clock"], "strategy": case["strategy"], "driver": case["driver"], "faults": case["faults"]}
     ref = Ref(prog)
